@@ -1017,10 +1017,10 @@ def poly_gen(ctx, k, budget, n_each, spec_only=False):
 
 def run(ctx):
     quick = ctx.quick
-    budget = 40000 if quick else 250000
+    budget = 40000 if quick else 400000
     conversion_checks(ctx, 300 if quick else 3000)
     sample_contract(ctx, 12 if quick else 120, 5 if quick else 40, 5 if quick else 6)
-    ncirc, npoly, n_each = (60, 36, 8) if quick else (240, 144, 16)
+    ncirc, npoly, n_each = (60, 36, 8) if quick else (400, 240, 16)
     for k0 in range(0, ncirc, CHUNK):
         drive(ctx, [circle_gen(ctx, k + 10 * ctx.seed, budget, n_each)[1] for k in range(k0, min(ncirc, k0 + CHUNK))])
     for k0 in range(0, npoly, CHUNK):
